@@ -57,6 +57,19 @@ def _check(mido, type_, attrs, t, thorough):
             forms.append((f'from_hex(sep={sep!r})',
                           lambda sep=sep: Message.from_hex(
                               m.hex(sep), time=t, sep=sep or None)))
+    # the frozen subclass inherits the codec
+    from mido.frozen import FrozenMessage
+    try:
+        fz = FrozenMessage.from_bytes(b, time=t)
+        fz2 = FrozenMessage.from_hex(hx, time=t) if thorough or t else fz
+    except Exception as e:
+        return (f'frozen-decode-raises/{type_}/{type(e).__name__}',
+                f'FrozenMessage.from_bytes/from_hex({exp}, time={t!r}) raised '
+                f'{e!r}')
+    if type(fz) is not FrozenMessage or vars(fz) != vars(m) or \
+            vars(fz2) != vars(m) or fz.bytes() != exp:
+        return (f'frozen-decode/{type_}',
+                f'FrozenMessage.from_bytes({exp}, time={t!r}) = {fz!r}')
     mv = vars(m)
     for name, fn in forms:
         try:
@@ -169,7 +182,12 @@ def worker(shard):
     for attrs in gen:
         t = TIMES[i % 6]
         i += 1
-        r = _check(mido, type_, attrs, t, thorough)
+        try:
+            r = _check(mido, type_, attrs, t, thorough)
+        except Exception as e:      # the implementation raised somewhere odd
+            r = (f'raised/{type_}/{type(e).__name__}',
+                 f'checking Message({type_!r}, {attrs}, time={t!r}) raised '
+                 f'{e!r}')
         acc.evals += 1
         acc.nontrivial += 1
         if r is not None:
